@@ -49,6 +49,13 @@ def mps_sum(ctx, idx, rng):
         _rel(ctx, 'as_vector.dense', r.as_vector(), refs.dense_state(r.A), ts(a) + ts(b), detail)
         if L > 1:
             ctx.ok('mps-sum.bond-dims-add', r.bond_dims[1:-1] == [x + y for x, y in zip(a.bond_dims[1:-1], b.bond_dims[1:-1])], 'inner bond dims must add', detail)
+    if inv is None and idx % 2 == 0:
+        i = int(rng.integers(0, L))
+        r.A[i] = r.A[i] * 1 if np.issubdtype(r.A[i].dtype, np.integer) else r.A[i]
+        r.A[i] *= 3 if np.issubdtype(r.A[i].dtype, np.integer) else 2.5
+        want2 = refs.dense_state(r.A)
+        _rel(ctx, 'as_vector.dense[after-inplace-edit]', r.as_vector(), want2, 3 * (ts(a) + ts(b)), detail)
+        _rel(ctx, 'mps-sum.dense[after-inplace-edit]', refs.dense_state((r - a).A), want2 - va, 3 * (ts(a) + ts(b)) + ts(a), detail)
     # direct call with a general alpha
     alpha = complex(rng.normal(), rng.normal()) if rng.random() < 0.5 else float(rng.choice([-1, 0.5, 2]))
     import pytenet.mps as pm
@@ -101,6 +108,25 @@ def mpo_arith(ctx, idx, rng):
         ctx.ok('as_matrix.sparse-type', sparse.issparse(sm), f'sparse_format=True returned {type(sm).__name__}', detail)
         if sparse.issparse(sm):
             _rel(ctx, 'as_matrix.sparse==dense', sm.toarray(), dm, sc, detail)
+    if inv is None and idx % 2 == 0:
+        # history: the same object is edited IN PLACE between two requests (a result cached by object identity would be stale)
+        i = int(rng.integers(0, L))
+        if np.issubdtype(r.A[i].dtype, np.integer):
+            r.A[i] *= 3
+        else:
+            r.A[i] *= 2.5
+        if rng.random() < 0.5:
+            nz = np.argwhere(r.A[0] != 0)
+            if len(nz):
+                r.A[0][tuple(nz[int(rng.integers(0, len(nz)))])] += 1
+        want2 = refs.dense_operator(r.A)
+        _rel(ctx, 'as_matrix.dense-format[after-inplace-edit]', r.as_matrix(), want2, 3 * sc + 1, detail)
+        sm2 = r.as_matrix(sparse_format=True)
+        if sparse.issparse(sm2):
+            _rel(ctx, 'as_matrix.sparse==dense[after-inplace-edit]', sm2.toarray(), want2, 3 * sc + 1, detail)
+        # and the edited object as an operand
+        r2 = r + r
+        _rel(ctx, 'mpo-add.dense[after-inplace-edit]', refs.dense_operator(r2.A), 2 * want2, 6 * sc + 2, detail)
     if op in ('add', 'sub'):
         import pytenet.mpo as pmo
         alpha = complex(rng.normal(), rng.normal())
@@ -239,13 +265,13 @@ def merge_split_case(ctx, idx, rng):
 
 SPEC = {
     'id': 'C03',
-    'rule': ('sums/differences of MPS and MPO (L 1..6 incl. the single-site path, independent bond profiles one/random/maximal/over-complete for the '
+    'rule': ('histories: every result object is edited in place and converted / used again (stale caches); sums/differences of MPS and MPO (L 1..6 incl. the single-site path, independent bond profiles one/random/maximal/over-complete for the '
              'two operands, matching non-trivial boundary charges, real/complex/mixed, general alpha), MPO composition, chained expression '
              '((A+B)@C - A@C), apply_operator incl. H(psi - phi), MPO.identity (scale, dtype), as_matrix dense vs sparse, as_vector, from_vector '
              'with zero tolerance (complex, real, integer, product, sparse vectors, scales 1e-6..1e6), merge/split of tensor pairs for '
              'left/right/sqrt. All compared with dense algebra on independently contracted operands (rel 1e-11). distinct = (operation, L, d, '
              'layout, profiles, dtypes).'),
-    'deciding': ['mps-sum.dense', 'mpo-add.dense', 'mpo-sub.dense', 'mpo-matmul.dense', 'mpo-chain.dense', 'apply.dense', 'identity.dense',
+    'deciding': ['as_matrix.sparse==dense[after-inplace-edit]', 'mps-sum.dense', 'mpo-add.dense', 'mpo-sub.dense', 'mpo-matmul.dense', 'mpo-chain.dense', 'apply.dense', 'identity.dense',
                  'as_matrix.sparse==dense', 'as_matrix.dense-format', 'as_vector.dense', 'from_vector.tol0-reproduces', 'merge_mps.dense',
                  'merge-undoes-split[tol0]', 'merge_mpo.dense'],
     'workloads': [
